@@ -36,13 +36,17 @@ JudgeLiParse(e, o) ==
         ELSE IF ~StrictCanonicalLI(e.ser) \/ Len(e.ser) > Len(e.in) THEN Bad("li-text-not-canonical", <<"C04">>, o)
         ELSE IF e.canon.k # "ok" \/ e.canon.text # e.ser THEN Bad("li-canonicalize", <<"C04">>, o)
         ELSE IF ~e.fromstr_same THEN Bad("li-fromstr-differs", <<"C02">>, o)
+        ELSE IF "again" \in DOMAIN e /\ ~e.again THEN Bad("li-second-call-differs", <<"C02">>, o)
+        ELSE IF "as_locale" \in DOMAIN e /\ e.as_locale # "same" THEN Bad("locale-" \o e.as_locale \o "-where-langid-accepts", <<"C13">>, o)
         ELSE Good(o)
     ELSE IF ~r.ok /\ e.out.k = "err" THEN
         IF e.out.err # r.err THEN Bad("li-error-kind", <<"C02">>, o)
         ELSE IF e.canon.k # "err" \/ ~e.fromstr_same THEN Bad("li-canonicalize-or-fromstr-differs", <<"C02", "C04">>, o)
+        ELSE IF "again" \in DOMAIN e /\ ~e.again THEN Bad("li-second-call-differs", <<"C02">>, o)
         ELSE Good(o)
     ELSE IF r.ok THEN Bad("li-rejects-well-formed", <<"C02">>, o)
-    ELSE Bad("li-accepts-ill-formed", <<"C02">>, o)
+    (* C13 speaks of every input the LIBRARY accepts as a language identifier, whatever the grammar says about it *)
+    ELSE Bad("li-accepts-ill-formed", IF "as_locale" \in DOMAIN e /\ e.as_locale # "same" THEN <<"C02", "C13">> ELSE <<"C02">>, o)
 
 (* any text the library prints must be strictly canonical (C04) and re-parse *)
 (* to the value it was printed from (C05), whatever zone the input was in    *)
@@ -66,9 +70,11 @@ JudgeLocParse(e, o) ==
         ELSE IF Len(e.ser) > Len(e.in) THEN Bad("loc-text-longer-than-input", <<"C04">>, o)
         ELSE IF e.canon.k # "ok" \/ e.canon.text # e.ser THEN Bad("loc-canonicalize", <<"C04">>, o)
         ELSE IF ~e.fromstr_same THEN Bad("loc-fromstr-differs", <<"C03">>, o)
+        ELSE IF "again" \in DOMAIN e /\ ~e.again THEN Bad("loc-second-call-differs", <<"C03">>, o)
         ELSE Good(o)
-    ELSE IF r.zone = "accept" THEN Bad("loc-rejects-well-formed", <<"C03">>, o)
+    ELSE IF r.zone = "accept" THEN Bad("loc-rejects-well-formed", <<"C03", "C13">>, o)
     ELSE IF e.canon.k # "err" \/ ~e.fromstr_same THEN Bad("loc-canonicalize-or-fromstr-differs", <<"C03", "C04">>, o)
+    ELSE IF "again" \in DOMAIN e /\ ~e.again THEN Bad("loc-second-call-differs", <<"C03">>, o)
     ELSE Good(o)
 
 JudgeExtParse(e, o) ==
@@ -194,15 +200,23 @@ JudgeMeta(e, o) ==
 (* a compile-time macro evaluated at run time (C16): the literal is well     *)
 (* formed, the value is what parsing the literal gives, no run-time failure  *)
 JudgeMacro(e, o) ==
+    (* a value that projects and prints like the parsed one but is not == to it breaks "x == y iff same canonical text" too *)
+    LET unequal == <<"C16", "C12">> IN
     IF e.out.k # "ok" THEN Bad("macro-runtime-failure-" \o e.m, <<"C16">>, o)
     ELSE IF e.m \in {"langid", "langids", "langid_slice"} THEN
         LET r == ParseLI(e.lit) IN
-        IF r.ok /\ e.st = r.val /\ e.rt_eq THEN Good(o) ELSE Bad("macro-value-" \o e.m, <<"C16">>, o)
+        IF r.ok /\ e.st = r.val /\ e.rt_eq THEN Good(o)
+        ELSE IF r.ok /\ e.st = r.val THEN Bad("macro-value-not-equal-to-parsed-" \o e.m, unequal, o)
+        ELSE Bad("macro-value-" \o e.m, <<"C16">>, o)
     ELSE IF e.m \in {"locale", "locales"} THEN
         LET r == ParseLoc(e.lit) IN
-        IF r.zone = "accept" /\ e.st = r.val /\ e.rt_eq THEN Good(o) ELSE Bad("macro-value-" \o e.m, <<"C16">>, o)
+        IF r.zone = "accept" /\ e.st = r.val /\ e.rt_eq THEN Good(o)
+        ELSE IF r.zone = "accept" /\ e.st = r.val THEN Bad("macro-value-not-equal-to-parsed-" \o e.m, unequal, o)
+        ELSE Bad("macro-value-" \o e.m, <<"C16">>, o)
     ELSE IF e.m \in Kinds THEN
-        IF IsKind(e.m, e.lit) /\ e.st = CanonKind(e.m, e.lit) /\ e.rt_eq THEN Good(o) ELSE Bad("macro-value-" \o e.m, <<"C16">>, o)
+        IF IsKind(e.m, e.lit) /\ e.st = CanonKind(e.m, e.lit) /\ e.rt_eq THEN Good(o)
+        ELSE IF IsKind(e.m, e.lit) /\ e.st = CanonKind(e.m, e.lit) THEN Bad("macro-value-not-equal-to-parsed-" \o e.m, unequal, o)
+        ELSE Bad("macro-value-" \o e.m, <<"C16">>, o)
     ELSE Bad("unknown-macro", <<"C16">>, o)
 
 (* 'und' is the empty language, however it is produced (C15)                 *)
